@@ -100,8 +100,50 @@ enum Op {
     Getfd(i32),
     Setfd(i32, bool),
     Access(i32),
+    /// signals are indices into SIGS
+    Sigaction(usize, Disp),
+    GetSigaction(usize),
+    Raise(usize),
+    Caught,
+    /// 0 = block, 1 = unblock, 2 = set
+    Sigmask(u8, Vec<usize>),
     Fork,
     Exit,
+}
+
+const SIGS: [&str; 5] = ["USR1", "USR2", "TERM", "INT", "HUP"];
+
+#[derive(Clone, Copy, Debug, PartialEq, Eq)]
+enum Disp {
+    Default,
+    Ignore,
+    Catch,
+}
+
+impl Disp {
+    fn coq(self) -> &'static str {
+        match self {
+            Disp::Default => "DDefault",
+            Disp::Ignore => "DIgnore",
+            Disp::Catch => "DCatch",
+        }
+    }
+    fn real(self) -> yash_env::system::Disposition {
+        use yash_env::system::Disposition as D;
+        match self {
+            Disp::Default => D::Default,
+            Disp::Ignore => D::Ignore,
+            Disp::Catch => D::Catch,
+        }
+    }
+    fn of(d: yash_env::system::Disposition) -> Disp {
+        use yash_env::system::Disposition as D;
+        match d {
+            D::Default => Disp::Default,
+            D::Ignore => Disp::Ignore,
+            D::Catch => Disp::Catch,
+        }
+    }
 }
 
 #[derive(Clone, Copy, Debug, PartialEq, Eq)]
@@ -127,7 +169,10 @@ enum Res {
     Flag(bool),
     Acc(Acc),
     Err(&'static str),
+    Disp(Disp),
+    Sigs(Vec<usize>),
     Hang,
+    Panic,
 }
 
 const ERRNOS: [&str; 12] = [
@@ -291,6 +336,11 @@ impl Op {
             Op::Getfd(fd) => format!("(OGetfd {})", fdn(*fd)),
             Op::Setfd(fd, cx) => format!("(OSetfd {} {})", fdn(*fd), coq::b(*cx)),
             Op::Access(fd) => format!("(OAccess {})", fdn(*fd)),
+            Op::Sigaction(s, d) => format!("(OSigaction {} {})", coq::n(*s as u64), d.coq()),
+            Op::GetSigaction(s) => format!("(OGetSigaction {})", coq::n(*s as u64)),
+            Op::Raise(s) => format!("(ORaise {})", coq::n(*s as u64)),
+            Op::Caught => "OCaught".into(),
+            Op::Sigmask(h, l) => format!("(OSigmask {} {})", coq::n(*h as u64), sig_list_coq(l)),
             Op::Fork => "OFork".into(),
             Op::Exit => "OExit".into(),
         }
@@ -314,6 +364,15 @@ impl Op {
             Op::Getfd(fd) => format!("getfd({fd})"),
             Op::Setfd(fd, cx) => format!("setfd({fd},cloexec={cx})"),
             Op::Access(fd) => format!("ofd_access({fd})"),
+            Op::Sigaction(s, d) => format!("sigaction({},{:?})", SIGS[*s], d),
+            Op::GetSigaction(s) => format!("get_sigaction({})", SIGS[*s]),
+            Op::Raise(s) => format!("raise({})", SIGS[*s]),
+            Op::Caught => "caught_signals()".into(),
+            Op::Sigmask(h, l) => format!(
+                "sigmask({},{:?})",
+                ["block", "unblock", "set"][*h as usize],
+                l.iter().map(|s| SIGS[*s]).collect::<Vec<_>>()
+            ),
             Op::Fork => "fork{".into(),
             Op::Exit => "}exit".into(),
         }
@@ -335,9 +394,15 @@ impl Op {
             Op::Pipe => "pipe",
             Op::Readdir(..) => "readdir",
             Op::Getfd(..) | Op::Setfd(..) | Op::Access(..) => "fcntl",
+            Op::Sigaction(..) | Op::GetSigaction(..) | Op::Raise(..) | Op::Caught | Op::Sigmask(..) => "signal",
             Op::Fork | Op::Exit => "fork",
         }
     }
+}
+
+fn sig_list_coq(l: &[usize]) -> String {
+    let v: Vec<String> = l.iter().map(|s| format!("{}", s)).collect();
+    if v.is_empty() { "(@nil N)".into() } else { format!("[{}]%N", v.join("; ")) }
 }
 
 fn coq_names(l: &[String]) -> String {
@@ -363,7 +428,10 @@ impl Res {
             Res::Flag(b) => format!("(RFlag {})", coq::b(*b)),
             Res::Acc(a) => format!("(RAcc {})", a.coq()),
             Res::Err(e) => format!("(RErr {})", e),
+            Res::Disp(d) => format!("(RDisp {})", d.coq()),
+            Res::Sigs(l) => format!("(RSigs {})", sig_list_coq(l)),
             Res::Hang => "RHang".into(),
+            Res::Panic => "RPanic".into(),
         }
     }
     fn show(&self) -> String {
@@ -372,6 +440,7 @@ impl Res {
             Res::Stat(k, s, p) => format!("stat {:?} size={} perm={:o}", k, s, p),
             Res::Mode(m) => format!("mode {:o}", m),
             Res::Path(p) => format!("path /{}", p.join("/")),
+            Res::Sigs(l) => format!("signals {:?}", l.iter().map(|s| SIGS[*s]).collect::<Vec<_>>()),
             other => format!("{:?}", other),
         }
     }
@@ -391,7 +460,10 @@ impl Res {
             Res::Flag(b) => format!("flag {}", *b as u8),
             Res::Acc(a) => format!("acc {}", a.show()),
             Res::Err(e) => format!("err {e}"),
+            Res::Disp(d) => format!("disp {}", d.coq()),
+            Res::Sigs(l) => format!("sigs {}", l.iter().map(|s| s.to_string()).collect::<Vec<_>>().join(",")),
             Res::Hang => "hang".into(),
+            Res::Panic => "panic".into(),
         }
     }
     fn dec(s: &str) -> Res {
@@ -423,6 +495,15 @@ impl Res {
                 _ => Acc::RdWr,
             }),
             "err" => Res::Err(ERRNOS.iter().find(|e| **e == a[0]).copied().unwrap_or("EOTHER")),
+            "disp" => Res::Disp(match a[0] {
+                "DIgnore" => Disp::Ignore,
+                "DCatch" => Disp::Catch,
+                _ => Disp::Default,
+            }),
+            "sigs" => Res::Sigs(
+                a.first().copied().unwrap_or("").split(',').filter(|x| !x.is_empty()).map(|x| x.parse().unwrap()).collect(),
+            ),
+            "panic" => Res::Panic,
             _ => Res::Hang,
         }
     }
@@ -508,9 +589,14 @@ impl SysObs {
 /// Everything stream 1 needs from a system.
 trait SysOps:
     Open + Close + Dup + Read + Write + Seek + Fstat + Umask + Chdir + GetCwd + Pipe + Fcntl
-    + Fork + Wait + Exit + Sized + 'static
+    + Fork + Wait + Exit + yash_env::system::Sigaction + yash_env::system::Sigmask
+    + yash_env::system::CaughtSignals + yash_env::system::SendSignal + Sized + 'static
 {
     const REAL: bool;
+    /// the numbers of SIGS on this system
+    fn sig(i: usize) -> yash_env::signal::Number {
+        [Self::SIGUSR1, Self::SIGUSR2, Self::SIGTERM, Self::SIGINT, Self::SIGHUP][i]
+    }
 }
 impl SysOps for VirtualSystem {
     const REAL: bool = false;
@@ -728,6 +814,37 @@ async fn exec_op<S: SysOps>(sys: &S, op: &Op, root: &str) -> Res {
             Ok(_) => Res::Err("EOTHER"),
             Err(x) => e(x),
         },
+        Op::Sigaction(s, d) => match sys.sigaction(S::sig(*s), d.real()) {
+            Ok(old) => Res::Disp(Disp::of(old)),
+            Err(x) => e(x),
+        },
+        Op::GetSigaction(s) => match sys.get_sigaction(S::sig(*s)) {
+            Ok(old) => Res::Disp(Disp::of(old)),
+            Err(x) => e(x),
+        },
+        Op::Raise(s) => match sys.raise(S::sig(*s)).await {
+            Ok(()) => Res::Unit,
+            Err(x) => e(x),
+        },
+        Op::Caught => {
+            let got = sys.caught_signals();
+            let mut l: Vec<usize> = (0..SIGS.len()).filter(|i| got.contains(&S::sig(*i))).collect();
+            l.sort();
+            Res::Sigs(l)
+        }
+        Op::Sigmask(how, sigs) => {
+            use yash_env::system::{SigmaskOp, Sigset};
+            let mut set = <S as yash_env::system::Sigmask>::Sigset::default();
+            for s in sigs {
+                let _ = set.insert(S::sig(*s));
+            }
+            let mut old = <S as yash_env::system::Sigmask>::Sigset::default();
+            let op = [SigmaskOp::Add, SigmaskOp::Remove, SigmaskOp::Set][*how as usize];
+            match sys.sigmask(Some((op, &set)), Some(&mut old)).await {
+                Ok(()) => Res::Sigs((0..SIGS.len()).filter(|i| old.contains(S::sig(*i)) == Ok(true)).collect()),
+                Err(x) => e(x),
+            }
+        }
         Op::Fork | Op::Exit => unreachable!(),
     }
 }
@@ -853,7 +970,11 @@ fn populate_virtual(state: &Rc<RefCell<SystemState>>, root: &str, tree: &InitTre
                 st.file_system.save(&path, dir_inode()).unwrap();
             }
             Some(b) => {
-                st.file_system.save(&path, Rc::new(RefCell::new(Inode::new(b.clone())))).unwrap();
+                let mut inode = Inode::new(b.clone());
+                if p.first().map(|s| s.as_str()) == Some("bin") {
+                    inode.permissions = Mode::from_bits_retain(0o755);
+                }
+                st.file_system.save(&path, Rc::new(RefCell::new(inode))).unwrap();
             }
         }
     }
@@ -929,7 +1050,8 @@ fn populate_real(root: &str, tree: &InitTree) {
             }
             Some(b) => {
                 std::fs::write(&path, b).unwrap();
-                std::fs::set_permissions(&path, std::fs::Permissions::from_mode(0o644)).unwrap();
+                let mode = if p.first().map(|s| s.as_str()) == Some("bin") { 0o755 } else { 0o644 };
+                std::fs::set_permissions(&path, std::fs::Permissions::from_mode(mode)).unwrap();
             }
         }
     }
@@ -940,53 +1062,66 @@ fn populate_real(root: &str, tree: &InitTree) {
 fn run_sys_virtual(case: &SysCase, root: &str) -> SysObs {
     let system = VirtualSystem::new();
     let state = Rc::clone(&system.state);
-    let executor = yash_executor::Executor::new();
-    state.borrow_mut().executor = Some(Rc::new(executor.spawner()));
-    populate_virtual(&state, root, &case.tree);
-    {
-        let mut p = system.current_process_mut();
-        p.chdir(yash_env::path::PathBuf::from(root));
-    }
-    system.umask(Mode::from_bits_retain(case.umask as _));
     let sink = MemSink::default();
-    let done = Rc::new(Cell::new(false));
-    {
+    let panicked = {
         let sink = sink.clone();
-        let done = Rc::clone(&done);
-        let ops = case.ops.clone();
-        let root = root.to_string();
-        let sys = system.clone();
-        let task = async move {
-            run_ops(&sys, &ops, &root, &sink).await;
-            done.set(true);
-        };
-        // SAFETY: single-threaded, as in yash_env::test_helper::in_virtual_system
-        unsafe { executor.spawn_pinned(Box::pin(task)) };
-    }
-    let mut rounds = 0;
-    while !done.get() && rounds < 10_000 {
-        executor.run_until_stalled();
-        rounds += 1;
-        if executor.wake_count() == 0 {
-            break;
-        }
-    }
+        let state = Rc::clone(&state);
+        std::panic::catch_unwind(std::panic::AssertUnwindSafe(move || {
+            let executor = yash_executor::Executor::new();
+            state.borrow_mut().executor = Some(Rc::new(executor.spawner()));
+            populate_virtual(&state, root, &case.tree);
+            {
+                let mut p = system.current_process_mut();
+                p.chdir(yash_env::path::PathBuf::from(root));
+            }
+            system.umask(Mode::from_bits_retain(case.umask as _));
+            let done = Rc::new(Cell::new(false));
+            {
+                let done = Rc::clone(&done);
+                let ops = case.ops.clone();
+                let root = root.to_string();
+                let sys = system.clone();
+                let task = async move {
+                    run_ops(&sys, &ops, &root, &sink).await;
+                    done.set(true);
+                };
+                // SAFETY: single-threaded, as in yash_env::test_helper::in_virtual_system
+                unsafe { executor.spawn_pinned(Box::pin(task)) };
+            }
+            let mut rounds = 0;
+            while !done.get() && rounds < 10_000 {
+                executor.run_until_stalled();
+                rounds += 1;
+                if executor.wake_count() == 0 {
+                    break;
+                }
+            }
+        }))
+        .is_err()
+    };
     let mut res = sink.0.borrow().clone();
+    if panicked && res.len() < case.ops.len() {
+        res.push(Res::Panic);
+    }
     // a call that never returned: the rest of the sequence has no result
     while res.len() < case.ops.len() {
         res.push(Res::Hang);
     }
-    let read = |p: &str| -> Vec<u8> {
-        match state.borrow().file_system.get(p) {
-            Ok(inode) => match &inode.borrow().body {
-                FileBody::Regular { content, .. } => content.clone(),
-                _ => vec![],
-            },
-            Err(_) => vec![],
-        }
-    };
-    let std = vec![read("/dev/stdin"), read("/dev/stdout"), read("/dev/stderr")];
-    SysObs { res, tree: snapshot_virtual(&state, root), std }
+    let snap = std::panic::catch_unwind(std::panic::AssertUnwindSafe(|| {
+        let read = |p: &str| -> Vec<u8> {
+            match state.borrow().file_system.get(p) {
+                Ok(inode) => match &inode.borrow().body {
+                    FileBody::Regular { content, .. } => content.clone(),
+                    _ => vec![],
+                },
+                Err(_) => vec![],
+            }
+        };
+        let std = vec![read("/dev/stdin"), read("/dev/stdout"), read("/dev/stderr")];
+        (snapshot_virtual(&state, root), std)
+    }));
+    let (tree, std) = snap.unwrap_or_default();
+    SysObs { res, tree, std }
 }
 
 /// Runs a sequence on the real system; called in the worker process only.
@@ -1002,6 +1137,19 @@ fn run_sys_real(case: &SysCase, dir: &str) {
     // append (like VirtualSystem::new), nothing else below SINK_FD
     for fd in 0..100 {
         let _ = sys.close(Fd(fd));
+    }
+    {
+        // signal state of the previous case: drop pending instances, unblock, default actions
+        use yash_env::system::{CaughtSignals as _, Disposition, Sigaction as _, Sigmask as _, SigmaskOp};
+        for i in 0..SIGS.len() {
+            let _ = sys.sigaction(RealSystem::sig(i), Disposition::Ignore);
+        }
+        let empty = <RealSystem as yash_env::system::Sigmask>::Sigset::default();
+        let _ = now(sys.sigmask(Some((SigmaskOp::Set, &empty)), None));
+        for i in 0..SIGS.len() {
+            let _ = sys.sigaction(RealSystem::sig(i), Disposition::Default);
+        }
+        let _ = sys.caught_signals();
     }
     sys.umask(Mode::from_bits_retain(0o022));
     for i in 0..3 {
@@ -1049,6 +1197,10 @@ struct Excl {
     dup2_same_fd: bool,
     /// O_CREAT below a missing directory creates the directory
     creat_missing_parent: bool,
+    /// a process killed by another process runs on to its next blocking point
+    killed_process_keeps_running: bool,
+    /// sigaction(sig, Ignore) does not discard a pending instance of sig
+    ignore_keeps_pending: bool,
 }
 
 fn excl_config() -> Excl {
@@ -1072,6 +1224,8 @@ fn excl_config() -> Excl {
         open_dir_for_writing: has("open-dir-for-writing") && !all,
         dup2_same_fd: has("dup2-same-fd") && !all,
         creat_missing_parent: has("creat-missing-parent") && !all,
+        killed_process_keeps_running: has("killed-process-keeps-running") && !all,
+        ignore_keeps_pending: has("ignore-keeps-pending") && !all,
     }
 }
 
@@ -1087,11 +1241,17 @@ enum OfdKind {
 struct ProcT {
     fds: BTreeMap<i32, usize>,
     cwd: Vec<String>,
+    disp: [Disp; 5],
+    mask: BTreeSet<usize>,
+    pend: BTreeSet<usize>,
+    caught: BTreeSet<usize>,
 }
 
 /// What the generator believes about the state (only used to produce mostly
 /// valid, never blocking sequences; the Coq model is the judge of the domain).
 struct Tracker {
+    /// classes of known deviations the sequence touches (found while generating)
+    hit: Vec<&'static str>,
     dirs: BTreeSet<Vec<String>>,
     files: BTreeSet<Vec<String>>,
     ofds: Vec<(OfdKind, bool, bool)>,
@@ -1117,7 +1277,15 @@ impl Tracker {
             fds.insert(i, ofds.len());
             ofds.push((OfdKind::Reg, true, true));
         }
-        Tracker { dirs, files, ofds, pipes: vec![], procs: vec![ProcT { fds, cwd: vec![] }] }
+        Tracker { hit: vec![], dirs, files, ofds, pipes: vec![], procs: vec![ProcT {
+                fds,
+                cwd: vec![],
+                disp: [Disp::Default; 5],
+                mask: BTreeSet::new(),
+                pend: BTreeSet::new(),
+                caught: BTreeSet::new(),
+            }],
+        }
     }
     fn cur(&self) -> &ProcT {
         self.procs.last().unwrap()
@@ -1325,8 +1493,81 @@ fn pick_fd(r: &mut Rng, t: &Tracker) -> i32 {
 /// the operation is expected to do.
 fn gen_op(r: &mut Rng, t: &mut Tracker, x: &Excl, ops: &mut Vec<Op>, depth: usize, budget: &mut usize) {
     loop {
-        let w = r.below(108);
+        let w = r.below(122);
         match w {
+            108..=121 => {
+                // signals (never one whose default action would be taken)
+                let sig = r.below(5);
+                match r.below(7) {
+                    0 | 1 => {
+                        let d = *r.pick(&[Disp::Catch, Disp::Catch, Disp::Ignore, Disp::Default]);
+                        if d == Disp::Ignore && t.cur().pend.contains(&sig) {
+                            if x.ignore_keeps_pending {
+                                continue;
+                            }
+                            t.hit.push("ignore-keeps-pending");
+                        }
+                        let p = t.cur_mut();
+                        p.disp[sig] = d;
+                        if d == Disp::Ignore {
+                            p.pend.remove(&sig);
+                        }
+                        ops.push(Op::Sigaction(sig, d));
+                    }
+                    2 => ops.push(Op::GetSigaction(sig)),
+                    3 | 4 => {
+                        let p = t.cur_mut();
+                        if p.mask.contains(&sig) {
+                            if p.disp[sig] != Disp::Ignore {
+                                p.pend.insert(sig);
+                            }
+                        } else {
+                            match p.disp[sig] {
+                                Disp::Default => continue,
+                                Disp::Catch => {
+                                    p.caught.insert(sig);
+                                }
+                                Disp::Ignore => {}
+                            }
+                        }
+                        ops.push(Op::Raise(sig));
+                    }
+                    5 => {
+                        t.cur_mut().caught.clear();
+                        ops.push(Op::Caught);
+                    }
+                    _ => {
+                        let how = r.below(3) as u8;
+                        let n = r.below(3);
+                        let mut sigs: Vec<usize> = (0..n).map(|_| r.below(5)).collect();
+                        sigs.dedup();
+                        let p = t.cur_mut();
+                        let mut new = p.mask.clone();
+                        match how {
+                            0 => new.extend(sigs.iter().copied()),
+                            1 => {
+                                for s in &sigs {
+                                    new.remove(s);
+                                }
+                            }
+                            _ => new = sigs.iter().copied().collect(),
+                        }
+                        let unblocked: Vec<usize> = p.pend.iter().copied().filter(|s| !new.contains(s)).collect();
+                        if unblocked.iter().any(|s| p.disp[*s] == Disp::Default) {
+                            continue;
+                        }
+                        for s in unblocked {
+                            p.pend.remove(&s);
+                            if p.disp[s] == Disp::Catch {
+                                p.caught.insert(s);
+                            }
+                        }
+                        p.mask = new;
+                        ops.push(Op::Sigmask(how, sigs));
+                    }
+                }
+                return;
+            }
             0..=21 => {
                 // open
                 let (class, acc, fl) = match r.below(19) {
@@ -1407,6 +1648,9 @@ fn gen_op(r: &mut Rng, t: &mut Tracker, x: &Excl, ops: &mut Vec<Op>, depth: usiz
             38..=45 => {
                 let fd = pick_fd(r, t);
                 let to = if r.chance(1, 2) { pick_fd(r, t) } else { r.below(14) as i32 };
+                if x.dup2_same_fd && to == fd {
+                    continue;
+                }
                 if let Some(id) = t.cur().fds.get(&fd).copied() {
                     t.cur_mut().fds.insert(to, id);
                 }
@@ -1520,8 +1764,13 @@ fn gen_op(r: &mut Rng, t: &mut Tracker, x: &Excl, ops: &mut Vec<Op>, depth: usiz
                     continue;
                 }
                 // fork: the child runs a few operations and exits
+                if !t.cur().caught.is_empty() {
+                    t.cur_mut().caught.clear();
+                    ops.push(Op::Caught);
+                }
                 ops.push(Op::Fork);
-                let child = t.cur().clone();
+                let mut child = t.cur().clone();
+                child.pend.clear();
                 t.procs.push(child);
                 let n = 1 + r.below(6.min(*budget - 1));
                 for _ in 0..n {
@@ -1571,7 +1820,7 @@ fn gen_sys_case(seed: u64, idx: usize, thorough: bool) -> SysCase {
         budget -= 1;
         gen_op(&mut r, &mut t, &x, &mut ops, 0, &mut budget);
     }
-    SysCase { tree, umask, ops, tags: vec![] }
+    SysCase { tree, umask, ops, tags: t.hit.clone() }
 }
 
 // ---------------------------------------------------------------------------
@@ -1674,6 +1923,10 @@ fn canon_root(out: &[u8], root: &str) -> Vec<u8> {
     s.replace(root, "ROOT").into_bytes()
 }
 
+fn canon_tree(t: Vec<TreeEntry>, root: &str) -> Vec<TreeEntry> {
+    t.into_iter().map(|(p, k, m, d)| (p, k, m, canon_root(&d, root))).collect()
+}
+
 /// What one run of a script showed.
 #[derive(Clone, Debug, Default, PartialEq)]
 struct ScriptObs {
@@ -1722,10 +1975,20 @@ fn run_script_virtual(script: &str, tree: &InitTree, root: &str) -> ScriptObs {
     match r {
         Ok((res, _deadlock, _timeout, state)) => {
             let read = |p: &str| vsh::read_file(&state, p).unwrap_or_default();
+            // the main shell process killed by a signal never finishes its task
+            // (what a parent would see from wait(): the process state first)
+            let status = {
+                use yash_env::job::{ProcessResult, ProcessState};
+                let st = state.borrow();
+                match st.processes.get(&yash_env::job::Pid(2)).map(|p| p.state()) {
+                    Some(ProcessState::Halted(ProcessResult::Signaled { signal, .. })) => -(100 + signal.as_raw()),
+                    _ => res.unwrap_or(-1),
+                }
+            };
             ScriptObs {
                 stdout: canon_root(&read("/dev/stdout"), root),
-                status: res.unwrap_or(-1),
-                tree: snapshot_virtual(&state, root),
+                status,
+                tree: canon_tree(snapshot_virtual(&state, root), root),
                 stderr: String::from_utf8_lossy(&read("/dev/stderr")).into_owned(),
             }
         }
@@ -1752,14 +2015,29 @@ fn real_shell_main(script: &str) -> ! {
 
 /// Runs the script with this binary as the shell, in a fresh directory.
 fn run_script_real(script: &str, tree: &InitTree, dir: &str) -> ScriptObs {
+    run_script_real_with(script, tree, dir, None)
+}
+
+/// `shell` = None: this binary (`--real-shell`); Some(path): that binary (`-c`).
+fn run_script_real_with(script: &str, tree: &InitTree, dir: &str, shell: Option<&str>) -> ScriptObs {
     use std::os::unix::process::{CommandExt, ExitStatusExt};
     use std::process::Stdio;
     let root = format!("{dir}/root");
     let _ = std::fs::remove_dir_all(dir);
     populate_real(&root, tree);
-    let mut cmd = std::process::Command::new(std::env::current_exe().unwrap());
-    cmd.arg("--real-shell")
-        .arg(script)
+    let mut cmd = match shell {
+        None => {
+            let mut c = std::process::Command::new(std::env::current_exe().unwrap());
+            c.arg("--real-shell");
+            c
+        }
+        Some(path) => {
+            let mut c = std::process::Command::new(path);
+            c.arg("-c");
+            c
+        }
+    };
+    cmd.arg(script)
         .current_dir(&root)
         .env_clear()
         .process_group(0)
@@ -1813,7 +2091,7 @@ fn run_script_real(script: &str, tree: &InitTree, dir: &str) -> ScriptObs {
     };
     let stdout = join(th_out);
     let stderr = String::from_utf8_lossy(&join(th_err)).into_owned();
-    let tree = snapshot_real(&root);
+    let tree = canon_tree(snapshot_real(&root), &root);
     let _ = std::fs::remove_dir_all(dir);
     ScriptObs { stdout: canon_root(&stdout, &root), status, tree, stderr }
 }
@@ -1906,7 +2184,7 @@ impl SGen<'_> {
 
     fn stmt(&mut self) -> String {
         loop {
-            let k = self.r.below(46);
+            let k = self.r.below(60);
             let (kind, s): (&'static str, String) = match k {
                 0 => ("redir-out", format!("echo {} > {}", self.word(), self.newfile())),
                 1 => ("redir-out", format!("echo {} > {}; echo {} >> {}", self.word(), "n1", self.word(), "n1")),
@@ -2011,7 +2289,14 @@ impl SGen<'_> {
                 41 => ("function", format!("fn() {{ echo in-fn \"$@\"; return 5; }}; fn a b > {}; echo $?", self.newfile())),
                 42 => {
                     if self.x.getcwd_unnormalized {
-                        let d = self.dir();
+                        // only spellings without `.` / `..`
+                        let d = if self.cwd.is_empty() {
+                            *self.r.pick(&["d", "e", "d/s"])
+                        } else if self.cwd == ["d"] {
+                            "s"
+                        } else {
+                            continue
+                        };
                         ("cd-physical", format!("(cd -P {d}; pwd; pwd -P)"))
                     } else {
                         self.tag("getcwd-unnormalized");
@@ -2027,13 +2312,65 @@ impl SGen<'_> {
                     self.tag("open-dir-for-writing");
                     ("err-write-dir", format!("echo {} > {}; echo $?", self.word(), self.dir()))
                 }
-                _ => {
-                    if self.x.dot_after_file {
+                46 => {
+                    // an older child that is still running while a later one is done
+                    let up = self.up();
+                    ("wait-slow-child", match self.r.below(4) {
+                        0 => format!("(cat < {up}big | cat > o1.tmp) & true & wait; echo $?"),
+                        1 => format!("(cat < {up}big | cat > /dev/null; exit 3) & (exit 2) & wait $!; echo $?; wait; echo $?"),
+                        2 => format!("(cat < {up}big | cat | cat > o2.tmp; exit 5) & p=$!; true & wait $!; wait $p; echo $?"),
+                        _ => format!("(v=$(cat < {up}big); exit 4) & true & true & wait; echo $?"),
+                    })
+                }
+                47 => {
+                    let f = self.file();
+                    ("shared-offset-fork", format!("exec 5< {f}; (read a <&5; echo \"sub[$a]\"); read b <&5; echo \"main[$b]\"; exec 5<&-"))
+                }
+                48 => ("pipe-subshell", "{ echo a; echo b; echo c; } | (read x; echo \"first=$x\"; cat)".to_string()),
+                49 => ("pipe-to-file", format!("echo {} | cat | cat > {}; echo $?", self.word(), self.newfile())),
+                50 => {
+                    let d = self.dir();
+                    ("pipe-cd", format!("(cd {d}; echo *; pwd) | cat"))
+                }
+                51 => ("signal-from-child", (*self.r.pick(&[
+                    "trap 'echo got' USR1; (kill -s USR1 $$) & wait $!; echo done",
+                    "trap 'echo got2' USR2; (kill -s USR2 $$; exit 3); echo sub=$?",
+                    "trap 'echo T; exit 9' TERM; (kill $$); echo unreachable",
+                ])).to_string()),
+                52 => ("cmdsubst-fd", "exec 7>&1; v=$(echo inner >&7; echo captured); echo \"[$v]\"; exec 7>&-".to_string()),
+                53 => ("cmdsubst-bg", "v=$(echo a & wait; echo b); echo \"[$v]\"".to_string()),
+                54 => {
+                    let f = self.file();
+                    ("truncate", format!(": > {f}; cat < {f}; echo x >> {f}; cat < {f} > {f}; cat < {f}; echo $?"))
+                }
+                55 => {
+                    let (n, f, d) = (self.fd(), self.newfile(), self.dir());
+                    ("fd-survives-cd", format!("exec {n}> {f}; (cd {d}; echo sub >&{n}); echo main >&{n}; exec {n}>&-; cat < {f}"))
+                }
+                56 => ("heredoc-big", format!("cat <<EOF | {{ read a; read b; echo \"$b\"; cat > /dev/null; }}\n{}EOF", "0123456789abcdefghijklmnopqrstuvwxyz0123456789abcdefghijklmnopqrstuvwxyz\n".repeat(20))),
+                59 => {
+                    // a child kills its parent, which has the default disposition
+                    if self.x.killed_process_keeps_running {
                         continue;
                     }
+                    self.tag("killed-process-keeps-running");
+                    let f = self.newfile();
+                    ("signal-default-from-child", format!("(kill -s TERM $$); echo x > {f}; echo unreachable"))
+                }
+                58 => ("signal-default-self", (*self.r.pick(&[
+                    // only signals whose numbers POSIX fixes (the simulator's other numbers differ)
+                    "kill -s HUP $$; echo unreachable",
+                    "kill $$; echo unreachable",
+                    "kill -s INT $$; echo unreachable",
+                    "kill -s KILL $$; echo unreachable",
+                    "kill -s ALRM $$; echo unreachable",
+                    "trap '' HUP; kill -s HUP $$; echo ignored; trap - HUP; kill -s HUP $$; echo unreachable",
+                ])).to_string()),
+                _ if k == 57 && !self.x.dot_after_file => {
                     self.tag("dot-after-file");
                     ("err-dot-after-file", format!("cat < {}/../g; echo $?", self.file()))
                 }
+                _ => continue,
             };
             self.kinds.push(kind);
             return s;
@@ -2046,6 +2383,13 @@ fn gen_script_case(seed: u64, idx: usize, thorough: bool) -> ScriptCase {
     let n = if thorough { 2 + r.below(8) } else { 2 + r.below(5) };
     let mut g = SGen { r: &mut r, x: excl_config(), cwd: vec![], globs: 0, tags: vec![], kinds: vec![] };
     let mut lines = vec![];
+    if g.r.chance(1, 4) {
+        // start below the root so that `..` spellings are exercised
+        let d = *g.r.pick(&["d", "e", "d/s"]);
+        g.cwd = d.split('/').collect();
+        g.kinds.push("cd");
+        lines.push(format!("cd {d}"));
+    }
     for _ in 0..n {
         lines.push(g.stmt());
     }
@@ -2066,6 +2410,116 @@ fn tree_for(script: &str) -> InitTree {
         t.retain(|(p, _)| p != &vec!["big".to_string()]);
     }
     t
+}
+
+// ---------------------------------------------------------------------------
+// stream 3: scripts of real built-ins only, also run by the yash3 binary
+// ---------------------------------------------------------------------------
+
+fn builtin_tree() -> InitTree {
+    let s = |l: &[&str]| -> Vec<String> { l.iter().map(|x| x.to_string()).collect() };
+    vec![
+        (s(&["bin"]), None),
+        // found on $PATH, so that the substitutive built-ins pwd/true/false are used
+        (s(&["bin", "pwd"]), Some(vec![])),
+        (s(&["bin", "true"]), Some(vec![])),
+        (s(&["bin", "false"]), Some(vec![])),
+        (s(&["d"]), None),
+        (s(&["d", "s"]), None),
+        (s(&["f"]), Some(b"hello world\nsecond line\n".to_vec())),
+        (s(&["g"]), Some(vec![])),
+        (s(&["d", "h"]), Some(b"abc\n".to_vec())),
+    ]
+}
+
+fn gen_builtin_script(seed: u64, idx: usize) -> ScriptCase {
+    let mut r = Rng::new(seed ^ 0xB17).fork(idx as u64);
+    let n = 3 + r.below(5);
+    let mut lines = vec!["PATH=$PWD/bin".to_string()];
+    let mut kinds = vec![];
+    for _ in 0..n {
+        let (k, s): (&'static str, &str) = *r.pick(&[
+            ("b:pwd", "pwd"),
+            ("b:cd", "cd d; pwd; cd s; pwd; cd ../..; pwd"),
+            ("b:cd-error", "cd nope; x=$?; typeset -p x; cd f; x=$?; typeset -p x; pwd"),
+            ("b:subshell-cd", "(cd d/s; pwd > where.txt); pwd; read -r w < d/s/where.txt; typeset -p w"),
+            ("b:umask", "umask 027; umask; umask -S; pwd > n1; umask 022"),
+            ("b:subshell-umask", "(umask 077; umask > n2); umask"),
+            ("b:redir-out", "pwd > n3; umask >> n3; read -r a < n3; typeset -p a"),
+            ("b:redir-clobber", "set -C; pwd > f; x=$?; typeset -p x; pwd >| g; set +C"),
+            ("b:read-file", "while read -r l; do typeset -p l; done < f"),
+            ("b:exec-fd", "exec 3< f; read -r a <&3; read -r b <&3; exec 3<&-; typeset -p a b; read -r c <&3; x=$?; typeset -p x"),
+            ("b:exec-fd-out", "exec 4> n4; pwd >&4; umask >&4; exec 4>&-; while read -r l; do typeset -p l; done < n4"),
+            ("b:shared-offset", "exec 5< f; (read -r a <&5; typeset -p a); read -r b <&5; typeset -p b; exec 5<&-"),
+            ("b:err-missing", "read -r q < nope; x=$?; typeset -p x"),
+            ("b:err-closed-fd", "pwd >&9; x=$?; typeset -p x"),
+            ("b:err-file-as-dir", "pwd > f/x; x=$?; typeset -p x"),
+            ("b:pipe", "pwd | { read -r v; typeset -p v; }"),
+            ("b:pipe2", "umask | (read -r v; typeset -p v) | { read -r w; typeset -p w; }"),
+            ("b:pipe-status", "true | false; x=$?; typeset -p x; ! false | true; x=$?; typeset -p x"),
+            ("b:cmdsubst", "v=$(pwd); typeset -p v; w=$(umask; exit 3); x=$?; typeset -p w x"),
+            ("b:subshell-status", "(exit 4); x=$?; typeset -p x"),
+            ("b:trap-self", "trap 'pwd' USR1; kill -s USR1 $$; trap 'x=caught; typeset -p x' INT; kill -s INT $$"),
+            ("b:trap-ignore", "trap '' TERM; kill $$; x=alive; typeset -p x"),
+            ("b:trap-exit", "trap 'pwd > bye.txt' EXIT"),
+            ("b:signal-from-child", "trap 'x=got; typeset -p x' USR2; (kill -s USR2 $$) & wait $!; x=done; typeset -p x"),
+            ("b:wait", "(exit 3) & wait $!; x=$?; typeset -p x; true & false & wait; x=$?; typeset -p x"),
+            ("b:wait-twice", "(exit 7) & p=$!; wait $p; x=$?; wait $p; y=$?; typeset -p x y"),
+            ("b:heredoc", "read -r a b <<EOF\none two three\nEOF\ntypeset -p a b"),
+            ("b:kill-l", "kill -l 15; kill -l TERM; kill -0 $$; x=$?; typeset -p x"),
+            ("b:function", "fn() { pwd; return 5; }; fn > n5; x=$?; typeset -p x"),
+            ("b:glob", "set -- *; x=\"$1,$2,$#\"; typeset -p x; set -- d/*; x=\"$#,$1\"; typeset -p x"),
+        ]);
+        kinds.push(k);
+        lines.push(s.to_string());
+    }
+    lines.push((*r.pick(&["exit 3", "false", "x=$?; typeset -p x"])).to_string());
+    ScriptCase { tree: builtin_tree(), script: lines.join("\n"), tags: vec![], kinds }
+}
+
+/// Builds the real shell binary from the repository under test; returns its
+/// path.
+fn build_yash3() -> String {
+    let repo = std::env::var("YV_REPO").unwrap_or_else(|_| "/repo".to_string());
+    let target = std::env::var("CARGO_TARGET_DIR").unwrap_or_else(|_| "/verif/.cache/target".to_string());
+    let target = format!("{target}/yash3");
+    let out = std::process::Command::new("cargo")
+        .args(["build", "--offline", "--locked", "-p", "yash-cli", "--manifest-path"])
+        .arg(format!("{repo}/Cargo.toml"))
+        .env("CARGO_TARGET_DIR", &target)
+        .env("CARGO_NET_OFFLINE", "true")
+        .output()
+        .expect("cargo");
+    if !out.status.success() {
+        eprintln!("building yash3 failed:\n{}", String::from_utf8_lossy(&out.stderr));
+        std::process::exit(3);
+    }
+    format!("{target}/debug/yash3")
+}
+
+fn emit_script3(w: &mut CasesWriter, case: &ScriptCase, v: &ScriptObs, r: &ScriptObs, y: &ScriptObs) {
+    let term = format!("(CScript3 {} {} {})", v.coq(), r.coq(), y.coq());
+    let side = |o: &ScriptObs| {
+        format!(
+            "{{\"status\":{},\"stdout\":{},\"stderr\":{},\"files\":{}}}",
+            o.status,
+            json_str(&String::from_utf8_lossy(&o.stdout)),
+            json_str(&o.stderr),
+            json_str(&tree_show(&o.tree))
+        )
+    };
+    let json = format!(
+        "{{\"stream\":\"builtin-script\",\"script\":{},\"virtual\":{},\"real\":{},\"yash3\":{}}}",
+        json_str(&case.script),
+        side(v),
+        side(r),
+        side(y)
+    );
+    for k in &case.kinds {
+        w.count(&format!("script3:{k}"));
+    }
+    let key = if !y.stdout.is_empty() { Some(format!("3:{}", case.script)) } else { None };
+    w.push(&term, &json, &case.tags, key);
 }
 
 fn corpus_scripts() -> Vec<ScriptCase> {
@@ -2124,6 +2578,7 @@ fn corpus_sys() -> Vec<SysCase> {
     let _ = &mut r;
     let fl = Flags::default();
     let mk = |ops: Vec<Op>| SysCase { tree: tree.clone(), umask: 0o022, ops, tags: vec![] };
+    let mk_tagged = |tag: &'static str, ops: Vec<Op>| SysCase { tree: tree.clone(), umask: 0o022, ops, tags: vec![tag] };
     vec![
         // dup shares the offset; dup2 clears cloexec
         mk(vec![
@@ -2197,6 +2652,37 @@ fn corpus_sys() -> Vec<SysCase> {
             Op::Lseek(5, Whence::Cur, 0),
             Op::Fstat(5),
         ]),
+        // signals: caught at once, pending while blocked, inherited by the child
+        mk(vec![
+            Op::Sigaction(0, Disp::Catch),
+            Op::Raise(0),
+            Op::Caught,
+            Op::Sigmask(0, vec![0, 2]),
+            Op::Raise(0),
+            Op::Raise(0),
+            Op::Caught,
+            Op::Sigaction(1, Disp::Ignore),
+            Op::Raise(1),
+            Op::Fork,
+            Op::GetSigaction(0),
+            Op::GetSigaction(1),
+            Op::Sigmask(1, vec![0]),
+            Op::Caught,
+            Op::Exit,
+            Op::Sigmask(2, vec![]),
+            Op::Caught,
+            Op::Sigaction(0, Disp::Default),
+        ]),
+        // a pending signal is discarded when its action is set to "ignore"
+        mk_tagged("ignore-keeps-pending", vec![
+            Op::Sigaction(3, Disp::Catch),
+            Op::Sigmask(0, vec![3]),
+            Op::Raise(3),
+            Op::Sigaction(3, Disp::Ignore),
+            Op::Sigaction(3, Disp::Catch),
+            Op::Sigmask(1, vec![3]),
+            Op::Caught,
+        ]),
         // errors: missing file, file as directory, closed descriptor, directory
         mk(vec![
             Op::Open("zz".into(), Acc::Rd, fl, 0),
@@ -2255,11 +2741,17 @@ fn sys_case(seed: u64, idx: usize, thorough: bool) -> SysCase {
     if x.opendir_fd_leak {
         case.ops.retain(|o| !matches!(o, Op::Readdir(_)));
     }
+    if x.ignore_keeps_pending && case.tags.contains(&"ignore-keeps-pending") {
+        // (corpus case of an excluded class)
+        case.ops.clear();
+        case.tags.clear();
+    }
     // classes of known deviations of the simulator that this case touches
-    let mut tags = vec![];
+    let mut tags = case.tags.clone();
     for op in &case.ops {
         let tag = match op {
             Op::Readdir(_) => Some("opendir-fd-leak"),
+            Op::Dup2(a, b) if a == b => Some("dup2-same-fd"),
             Op::Open(p, _, f, _) if f.creat && p.split('/').any(|c| c == "..") => Some("creat-dotdot"),
             Op::Chdir(p) if has_dots(p) => Some("getcwd-unnormalized"),
             Op::Open(p, a, _, _) if *a != Acc::Rd && is_init_dir(p) => Some("open-dir-for-writing"),
@@ -2411,6 +2903,12 @@ fn real_sys_all(args: &Args, n: usize, run: &str) -> BTreeMap<usize, SysObs> {
                     .arg(b.to_string())
                     .arg(&run)
                     .env_clear();
+                // the worker regenerates the sequences: same generator configuration
+                for k in ["YV_C19_FINDINGS", "YV_C19_PROPS", "YV_C19_SCRATCH"] {
+                    if let Ok(v) = std::env::var(k) {
+                        cmd.env(k, v);
+                    }
+                }
                 let (out, _) = run_with_timeout(cmd, Duration::from_secs(60));
                 results.lock().unwrap().push_str(&String::from_utf8_lossy(&out));
             }
@@ -2427,7 +2925,7 @@ fn real_sys_all(args: &Args, n: usize, run: &str) -> BTreeMap<usize, SysObs> {
 
 /// Real-side observations of all scripts (a pool of threads, each running one
 /// shell process at a time).
-fn real_scripts_all(cases: &[ScriptCase], run: &str) -> Vec<ScriptObs> {
+fn real_scripts_all(cases: &[ScriptCase], run: &str, shell: Option<String>) -> Vec<ScriptObs> {
     let n = cases.len();
     let par = std::thread::available_parallelism().map(|x| x.get()).unwrap_or(4).min(16);
     let next = std::sync::Arc::new(std::sync::Mutex::new(0usize));
@@ -2437,6 +2935,7 @@ fn real_scripts_all(cases: &[ScriptCase], run: &str) -> Vec<ScriptObs> {
     let mut threads = vec![];
     for _ in 0..par {
         let (next, results, input, run) = (next.clone(), results.clone(), input.clone(), run.to_string());
+        let shell = shell.clone();
         threads.push(std::thread::spawn(move || {
             loop {
                 let k = {
@@ -2448,7 +2947,7 @@ fn real_scripts_all(cases: &[ScriptCase], run: &str) -> Vec<ScriptObs> {
                 if k >= input.len() {
                     break;
                 }
-                let o = run_script_real(&input[k].0, &input[k].1, &format!("{run}/s{k}"));
+                let o = run_script_real_with(&input[k].0, &input[k].1, &format!("{run}/s{k}"), shell.as_deref());
                 results.lock().unwrap()[k] = o;
             }
         }));
@@ -2556,15 +3055,30 @@ fn main() {
     // ---- stream 2 ----
     let n_scr = corpus_scripts().len() + args.scale(400, 6000);
     let cases: Vec<ScriptCase> = (0..n_scr).map(|i| script_case(args.seed, i, args.thorough())).collect();
-    let reals = real_scripts_all(&cases, &run);
+    let reals = real_scripts_all(&cases, &run, None);
     for (i, case) in cases.iter().enumerate() {
         let v = run_script_virtual(&case.script, &case.tree, &format!("{run}/s{i}/root"));
         emit_script(&mut w, case, &v, &reals[i]);
+    }
+
+    // ---- stream 3 ----
+    let yash3 = build_yash3();
+    let n3 = args.scale(150, 1500);
+    let cases3: Vec<ScriptCase> = (0..n3).map(|i| gen_builtin_script(args.seed, i)).collect();
+    let reals3 = real_scripts_all(&cases3, &format!("{run}/h"), None);
+    let yash3s = real_scripts_all(&cases3, &format!("{run}/y"), Some(yash3.clone()));
+    for (i, case) in cases3.iter().enumerate() {
+        // (the same directory name as on the harness-shell side: $PWD is printed as ROOT anyway)
+        let v = run_script_virtual(&case.script, &case.tree, &format!("{run}/h/s{i}/root"));
+        emit_script3(&mut w, case, &v, &reals3[i], &yash3s[i]);
     }
     let _ = std::fs::remove_dir_all(&run);
     w.finish(
         "stream 1: random system-call sequences (4-40 calls, up to 2 nested forks) on a fixed small \
          tree, run on VirtualSystem and RealSystem; non-trivial = at least 5 calls succeeded and at \
-         least one failed; distinct = by call sequence",
+         least one failed; distinct = by call sequence.  stream 2: random scripts (2-10 statements \
+         from 58 templates) run by the same generic shell main on the simulated and the real OS; \
+         non-trivial = printed something.  stream 3: scripts of real built-ins only, additionally \
+         run by the yash3 binary built from the repository",
     );
 }
